@@ -1301,7 +1301,10 @@ impl ViCut {
 			return Err(format!("Index {index} out of bounds for array {name}, length is {len}",))
 		}
 		compound.set(index, value);
-		self.set_var(name, compound.into())?;
+		// Write back where the variable lives, not into the innermost scope
+		if let Some(var) = self.get_var_mut(&name) {
+			*var = compound.into();
+		}
 		Ok(())
 	}
 	pub fn read_index_var(&mut self, name: String, index: usize) -> Result<Val,String> {
